@@ -7,7 +7,16 @@ FTPShell / FTPAnonymousShell over FilePath.  A scripted client logs in and sends
 empty segments, absolute forms, the name of a *sibling directory that has the
 root's name as a prefix*, the parent's secret file, NUL, backslash, globs,
 non-UTF-8 bytes, very long names), relative to a working directory that itself
-moves; RNFR/RNTO pairs have other commands in between.  The command stream is cut
+moves; RNFR/RNTO pairs have other commands in between.  In 40% of the escape
+attempts the parent references themselves are written in decorated spellings
+(DOT_SPELLINGS: NUL before / inside / after, CR NUL, backslash, %2e and %252e,
+trailing dots / blanks / tab, ';' and '#' parameters, control and Telnet IAC bytes,
+non-shortest and full-width UTF-8 dots, glob characters), uniformly or mixed
+with plain ones, optionally with decorated separators and decorated '.' segments
+in between, from every working-directory depth and followed by every kind of
+tail (prefix-named sibling, secret, root re-entered by name, new names, globs);
+the first name of the tail may be decorated the same way, and paths that stay
+inside the root get one decorated '.'/'..' segment now and then.  The command stream is cut
 into tape-chosen segments (pipelined lines in one segment, lines split anywhere)
 and is only delivered while the server reads (FTP pauses its transport while a
 command is in progress).  PASV/EPSV ports are fake listening ports returned by
@@ -97,7 +106,8 @@ RULE = ("run = one FTP session (94%): optional pre-login command, login (anonymo
         "(CWD/CDUP/PWD/SIZE/MDTM/LIST/NLST/RETR/STOR/APPE/DELE/MKD/RMD/RNFR-RNTO with commands in between/working directory removed or renamed under the session/misc), "
         "one closing relative SIZE, command stream cut by the tape, data channels connected/refused/fed/drained/closed/timed out by the tape, optional control-connection "
         "loss; or (6%) 1-8 direct IFTPShell calls with hostile segment lists (instrumentation, no verdict).  non-trivial = after login at least one path argument tried "
-        "to leave the root (climbed above it, named a neighbour through '..', an absolute form or '~') and (the command stream was cut at least once or a data "
+        "to leave the root (climbed above it, named a neighbour through '..' - plain or in a decorated spelling: NUL / backslash / %2e / trailing dot or blank / ';' / "
+        "control byte / alternative dot / glob inside or next to the '..', 40% of the escapes - an absolute form or '~') and (the command stream was cut at least once or a data "
         "connection was opened); shell family: at least one segment list that resolves outside the root was passed")
 ASSUMPTIONS = [
     "the scratch tree contains no symbolic links (the statement puts them aside); containment is decided textually (normpath(abspath(p)), no symlink resolution)",
@@ -108,6 +118,9 @@ ASSUMPTIONS = [
     "exceptions escaping from FTP code, missing replies and commands that never complete get no verdict (the statement is about paths only); they are counted by probes",
     "the protocol layer (toSegments) and the shell layer (FilePath.descendant) each confine paths; a defect in one layer alone is masked by the other and is not a violation "
     "(probes ftp_layer_passed_unconfined_segments_no_verdict / shell_layer_direct_*_no_verdict report it)",
+    "decorated spellings of '.'/'..' ('..\\0', '.\\0.', '%2e%2e', '.. ', '..;', ...) are sent because a layer that cleans a segment up AFTER comparing it with '..' turns them into "
+    "parent references; the oracle does not care how the server reads them (refusal, literal name inside the root): only the audited paths, the outside snapshot and the "
+    "channels are judged, exactly as for plain arguments",
     "the client cannot name the random scratch directory, so absolute filesystem paths of the neighbours are never sent; FTP-absolute forms ('/..', '//', '/~/') are",
 ]
 LEVEL_NOTE = ("Path arguments and command sequences (histories) are sampled by a seeded grammar: input sampling decides which (cwd, pending rename, argument) combinations reach "
@@ -432,6 +445,32 @@ WEIRD = ["", "/", ".", "..", "...", "....", "~", "~/f0.txt", "~root", "a\x00b", 
          "/../" * 3, "a//b///c", "./././a", "we*rd", "back\\slash", "a/b/c/", "/a/./b/../b"]
 
 
+# Spellings of a '.' / '..' segment that some lenient layer (Telnet-padding / NUL stripping, percent decoding, backslash as a
+# separator, Windows-style trimming of trailing dots and blanks, ';' path parameters, control-character removal, non-shortest
+# UTF-8, glob expansion) could read as the plain segment.  Each entry: (class, function of the plain segment).  The plain
+# spelling is not in the table (it is the draw value 0 of the callers).
+DOT_SPELLINGS = [
+    ("nul", lambda d: d + "\x00"), ("nul", lambda d: "\x00" + d), ("nul", lambda d: d[0] + "\x00" + d[1:]), ("nul", lambda d: "\x00" + "\x00".join(d) + "\x00"),
+    ("nul", lambda d: d + "\r\x00"),
+    ("backslash", lambda d: d + "\\"), ("backslash", lambda d: "\\" + d), ("backslash", lambda d: d + "\\."),
+    ("percent", lambda d: "%2e" * len(d)), ("percent", lambda d: "%2E" + d[1:]), ("percent", lambda d: d[:-1] + "%2e"), ("percent", lambda d: "%252e" * len(d)),
+    ("percent", lambda d: d + "%00"), ("percent", lambda d: d + "%2f"),
+    ("trailing", lambda d: d + "."), ("trailing", lambda d: d + " "), ("trailing", lambda d: " " + d), ("trailing", lambda d: d + "\t"), ("trailing", lambda d: d + ". ."),
+    ("param", lambda d: d + ";"), ("param", lambda d: d + ";x=1"), ("param", lambda d: d + "#"), ("param", lambda d: d + "?x"),
+    ("ctl", lambda d: d + "\r"), ("ctl", lambda d: d + "\n"), ("ctl", lambda d: "\x7f" + d), ("ctl", lambda d: d[0] + "\x08" + d[1:]), ("ctl", lambda d: "\xff\xf1" + d),
+    ("altdot", lambda d: "\xc0\xae" * len(d)), ("altdot", lambda d: "\xef\xbc\x8e" * len(d)), ("altdot", lambda d: d[:-1] + "\xc0\xae"), ("altdot", lambda d: "\xb7" * len(d)),
+    ("glob", lambda d: d + "*"), ("glob", lambda d: "[.]" * len(d)), ("glob", lambda d: d[:-1] + "?"),
+]
+# what may stand between two segments (index 0 = the plain separator)
+SEPARATORS = ["/", "//", "/./", "\\", "/\x00/", "%2f", "/\\", "\x00/"]
+# the same idea for an ordinary name (the first segment of the tail that follows the climbs)
+NAME_SPELLINGS = [
+    ("nul", lambda n: n + "\x00"), ("nul", lambda n: "\x00" + n), ("nul", lambda n: n[:1] + "\x00" + n[1:]), ("nul", lambda n: n[:-1] + "\x00" + n[-1:]),
+    ("trailing", lambda n: n + "."), ("trailing", lambda n: n + " "), ("backslash", lambda n: n + "\\"), ("param", lambda n: n + ";"),
+    ("percent", lambda n: "%" + "%02x" % ord(n[0]) + n[1:]), ("ctl", lambda n: n + "\r"), ("case", lambda n: n.upper()),
+]
+
+
 class Gen:
     def __init__(self, sim, env, writable):
         self.sim, self.env, self.writable = sim, env, writable
@@ -439,10 +478,23 @@ class Gen:
         self.dirs = [list(d) for d in env.dirs]
         self.newn = 0
         self.attempts = 0
+        self.respelt = False          # the last _escape() wrote its parent references in decorated spellings
 
     def _decorate(self, s):
         sim = self.sim
-        k = sim.draw_weighted([("none", 6), ("dot", 1), ("dslash", 1), ("trail", 1), ("traildot", 1), ("lead", 1), ("updown", 1)], "decor")
+        k = sim.draw_weighted([("none", 6), ("dot", 1), ("dslash", 1), ("trail", 1), ("traildot", 1), ("lead", 1), ("updown", 1), ("respell", 1)], "decor")
+        if k == "respell":
+            # one '.' / '..' segment of a path that stays inside the root, in a decorated spelling
+            parts = s.split("/")
+            idx = [i for i, x in enumerate(parts) if x in (".", "..")]
+            if not idx:
+                parts.insert(1 if s.startswith("/") else 0, ".")
+                idx = [1 if s.startswith("/") else 0]
+            i = sim.draw_choice(idx, "which")
+            cls, fn = sim.draw_choice(DOT_SPELLINGS, "spelling")
+            parts[i] = fn(parts[i])
+            sim.probe("respelt_dot_segment_inside_root:" + cls)
+            return "/".join(parts)
         if k == "dot" and "/" in s:
             return s.replace("/", "/./", 1)
         if k == "dslash" and "/" in s:
@@ -472,26 +524,61 @@ class Gen:
             ups = sim.draw_choice(["~/", "~/./", "/~/", "a/~/"], "tilde")
             self.sim.probe("tilde_form")
         elif form == "rel":
-            ups = "../" * (depth + 1)
+            ups = self._climbs("", depth + 1)
         elif form == "relplus":
-            ups = "../" * (depth + 1 + sim.draw_int(1, 2, "extra"))
+            ups = self._climbs("", depth + 1 + sim.draw_int(1, 2, "extra"))
         elif form == "abs":
-            ups = "/" + "../" * sim.draw_int(1, 2, "ups")
+            ups = self._climbs("/", sim.draw_int(1, 2, "ups"))
         else:
-            ups = "/a/b/" + "../" * sim.draw_int(3, 4, "ups")
+            ups = self._climbs("/a/b/", sim.draw_int(3, 4, "ups"))
         self.newn += 1
         tail = sim.draw_choice(["secret.txt", env.sibname + "/hidden.txt", env.sibname, env.sibname + "/", "", env.rootname + "/f0.txt", env.rootname,
                                 "esc%d" % self.newn, env.sibname + "/esc%d" % self.newn, env.rootname + "/a",
                                 "*", env.sibname + "/*", env.rootname + "*", "s*.txt", env.sibname + "/h?dden.txt", "[a-z]*"], "esctail")
         if "*" in tail or "?" in tail:
             self.sim.probe("glob_escape")
+        if self.respelt and tail and sim.draw_bool(0.2, "tailspell"):
+            # the first name after the climbs (sibling / root / secret / new name) in a decorated spelling as well
+            first, sep, rest = tail.partition("/")
+            cls, fn = sim.draw_choice(NAME_SPELLINGS, "namespelling")
+            tail = fn(first) + sep + rest
+            sim.probe("respelt_name_after_climb:" + cls)
         return ups + tail
+
+    def _climbs(self, prefix, n):
+        """prefix + n parent references, each followed by a separator.  In 40% of the escapes the parent references (and
+        possibly the separators, with '.' segments in between) are written in the DOT_SPELLINGS / SEPARATORS variants: one
+        spelling for all of them, or one drawn per climb (plain ones mixed in)."""
+        sim = self.sim
+        self.respelt = sim.draw_bool(0.4, "respell")
+        if not self.respelt:
+            return prefix + "../" * n
+        uniform = sim.draw_bool(0.5, "uniform")
+        altsep = sim.draw_bool(0.25, "altsep")
+        dots = sim.draw_bool(0.2, "dotsbetween")
+        sp = sim.draw_choice(DOT_SPELLINGS, "spelling")
+        out = prefix
+        for i in range(n):
+            if not uniform and i:
+                sp = sim.draw_choice(DOT_SPELLINGS, "spelling") if sim.draw_bool(0.7, "respell_this") else None
+            if sp is None:
+                out += ".."
+            else:
+                out += sp[1]("..")
+                sim.probe("respelt_parent_reference:" + sp[0])
+            out += sim.draw_choice(SEPARATORS, "sep") if altsep else "/"
+            if dots and sim.draw_bool(0.5, "dothere"):
+                out += sim.draw_choice(DOT_SPELLINGS, "spelling")[1](".") + "/"
+                sim.probe("respelt_dot_between_climbs")
+        self.sim.probe("respelt_escape_cwd_depth_%d" % min(len(self.cwd), 3))
+        return out
 
     def path(self, want):
         """want: 'dir' | 'file' | 'new' | 'any'.  Returns a str path argument."""
         sim = self.sim
         kinds = [("target", 9), ("escape", 5), ("weird", 2), ("new", 8 if want == "new" else 1)]
         k = sim.draw_weighted(kinds, "pathkind")
+        self.respelt = False
         if k == "escape":
             s = self._escape()
         elif k == "weird":
@@ -506,7 +593,7 @@ class Gen:
             else:
                 s = self._express(sim.draw_choice(self.env.files, "file"))
         segs, escaped = M.walk(self.cwd, s)
-        if escaped or s.startswith(("~/", "/~/", "a/~/")) or self.env.sibname in s.split("/") and ".." in s.split("/"):
+        if escaped or self.respelt or s.startswith(("~/", "/~/", "a/~/")) or self.env.sibname in s.split("/") and ".." in s.split("/"):
             self.attempts += 1
             self.sim.probe("escape_attempt")
             if self.env.sibname in s:
@@ -1209,6 +1296,16 @@ MUTANTS = [
     "De cwd stored unnormalised after CWD (later relative path escapes) + FilePath.child without checks -> caught fs-confined:os.listdir:sibling / open:other / os.mkdir:other (800 runs)",
     "Df ftp_LIST argument not normalised + _path via preauthChild -> caught fs-confined:os.listdir:sibling (800 runs)",
     "Dg toSegments maps a leading '/' to the segment '/' (FTP-absolute = filesystem-absolute) + FilePath.child without checks -> caught fs-confined:os.listdir:elsewhere / open:elsewhere (49 runs)",
+    # ---- round 3: a segment is cleaned up AFTER the comparison with '..' (so a decorated '..' survives toSegments as a literal '..') + _path via preauthChild('/'.join(segments));
+    #      reaches exactly the prefix-named sibling.  Needs the decorated-parent-reference family (respelt_parent_reference:* probes)
+    "R1 toSegments strips NUL from a segment after the '.'/'..' comparison instead of refusing it + _path via preauthChild -> caught fs-confined:open:sibling / os.listdir:sibling / os.remove:sibling "
+    "within the first 400 runs (e.g. 'RETR ..\\0/pub2/hidden.txt', 'CWD ..\\0/pub2/hidden.txt', 'DELE ..\\0/pub2/h?dden.txt'); missed before the family existed",
+    "R2 same with s.strip() (blanks / tab / CR trimmed late) -> caught fs-confined:os.listdir:sibling / open:other / os.rmdir:sibling (450 runs)",
+    "R3 same with urllib unquote of the segment (late percent-decoding; '%2e%2e', '..%2f', '..%00') -> caught fs-confined:os.listdir:sibling / open:other (400 runs)",
+    "R4 same with s.split(';')[0] (path parameters dropped late) -> caught fs-confined:os.listdir:sibling / os.rename:sibling (500 runs)",
+    "R5 same with the segment split at backslashes late ('..\\', '\\..') -> caught fs-confined:open:sibling / os.listdir:sibling / os.rmdir:sibling (500 runs)",
+    "R6 same with control characters (< 0x20, 0x7f) removed late -> caught fs-confined:open:sibling / os.listdir:sibling / os.rmdir:sibling (400 runs)",
+    "R7 same with s.rstrip('. ') or s (a '..' followed by dots/blanks collapses to the empty string and falls back to the literal name) -> survives, correctly: no parent reference is produced",
     # ---- one layer broken, the other still confines: property holds, instrumentation reports it
     "M1 toSegments: '..' at depth 0 appended instead of InvalidPath -> masked (FilePath.child raises InsecurePath -> 550); ftp_layer_passed_unconfined_segments_no_verdict = 41030",
     "M1b toSegments: '..' at depth 0 silently ignored -> equivalent for C54 (stays in the root); no probe",
